@@ -353,6 +353,35 @@ func notchhole(rng *rand.Rand, G float64, U int64) [][]ipt {
 	return rings
 }
 
+// ushape: a U-shaped shell (a notch cut in from the top) and a rectangular hole straight below the notch, exactly as wide: every vertex of the
+// hole has a vertical edge of the shell straight above it
+func ushape(rng *rand.Rand, G float64, U int64) [][]ipt {
+	if G < 14 {
+		return nil
+	}
+	a, b := U+rng.Int63n(U), U+rng.Int63n(U)
+	c, d := a+(10+rng.Int63n(3))*U, b+(10+rng.Int63n(3))*U
+	x1 := a + (3+rng.Int63n(2))*U + rng.Int63n(U)
+	x2 := x1 + (2+rng.Int63n(2))*U
+	n := d - (3+rng.Int63n(2))*U
+	y2 := n - (1+rng.Int63n(2))*U - rng.Int63n(U)
+	y1 := y2 - (2+rng.Int63n(2))*U
+	if x2 >= c-U || y1 <= b+U/2 {
+		return nil
+	}
+	shell := []ipt{{a, b}, {c, b}, {c, d}, {x2, d}, {x2, n}, {x1, n}, {x1, d}, {a, d}}
+	hole := []ipt{{x1, y1}, {x1, y2}, {x2, y2}, {x2, y1}}
+	rings := [][]ipt{shell, hole}
+	if rng.Intn(2) == 0 { // the same lying on its side
+		for _, r := range rings {
+			for i := range r {
+				r[i] = ipt{r[i].y, r[i].x}
+			}
+		}
+	}
+	return rings
+}
+
 // pinhole: a rectangle with a hole smaller than a deepest pixel that sits in a pixel one of the shell's sides passes through (the hole collapses
 // to a point on every level, but its pixel is hot: the side must be routed through its centre); sometimes a second, ordinary hole as well
 func pinhole(rng *rand.Rand, G float64, U int64) [][]ipt {
@@ -508,9 +537,11 @@ func genValid(rng *rand.Rand, family string, G float64, U int64, maxv int) (res 
 	var shell []ipt
 	cx, cy, rmax := 0.0, 0.0, 0.0
 	switch family {
-	case "chole", "edgehole", "dblc", "pinhole", "notchhole":
+	case "chole", "edgehole", "dblc", "pinhole", "notchhole", "ushape":
 		var rings [][]ipt
 		switch family {
+		case "ushape":
+			rings = ushape(rng, G, U)
 		case "notchhole":
 			rings = notchhole(rng, G, U)
 		case "pinhole":
@@ -827,7 +858,7 @@ func pickWindow(rng *rand.Rand, ws []window) window {
 	return ws[0]
 }
 
-var validFamilies = []string{"star", "star", "holes", "holes", "comb", "sliver", "pinched", "rect", "chole", "edgehole", "dblc", "tiny", "thinpath", "pinhole", "notchhole"}
+var validFamilies = []string{"star", "star", "holes", "holes", "comb", "sliver", "pinched", "rect", "chole", "edgehole", "dblc", "tiny", "thinpath", "pinhole", "notchhole", "ushape"}
 
 // genCase: one snapping case. valid=true: a valid polygon; otherwise arbitrary vertex sequences.
 func genCase(rng *rand.Rand, w window, valid bool, maxv int) *snapCase {
